@@ -72,7 +72,8 @@ var c03Havings = []Expr{
 func (p *c03) Init(tier string) {
 	p.tier = tier
 	// m: a grouping column of mixed kinds whose values print alike (1 / "1", NULL / "<nil>", true / "true")
-	groups := [][]string{nil, {"g"}, {"h"}, {"g", "h"}, {"h", "g"}, {"m"}, {"m", "h"}}
+	// n: a column with more than 8 distinct values (only in the two larger tables)
+	groups := [][]string{nil, {"g"}, {"h"}, {"g", "h"}, {"h", "g"}, {"m"}, {"m", "h"}, {"n"}, {"n", "h"}}
 	for _, g := range groups {
 		for li := range c03Lists {
 			if g == nil && c03Lists[li].star {
@@ -160,9 +161,26 @@ func (p *c03) Init(tier string) {
 			row["id"] = float64(i)
 			row["o"] = map[string]any{"v": row["v"]}
 			row["p"] = map[string]any{"v": row["w"]}
+			row["n"] = float64(i % 11)
 			rows = append(rows, row)
 		}
 		p.tables = append(p.tables, rows)
+	}
+	// a table with 10 distinct values of n (and of (n, h)), two of them occurring twice: also explored
+	// under every map iteration order within the bound
+	{
+		rows := []any{}
+		for i := 0; i < 12; i++ {
+			row := gq.CloneMap(arch[(i*5+i/4)%len(arch)])
+			row["id"] = float64(i)
+			row["o"] = map[string]any{"v": row["v"]}
+			row["p"] = map[string]any{"v": row["w"]}
+			row["n"] = float64(i % 10)
+			row["h"] = float64(i%10%2 + 1)
+			rows = append(rows, row)
+		}
+		p.tables = append(p.tables, rows)
+		p.sub = append(p.sub, len(p.tables)-1)
 	}
 }
 
@@ -419,7 +437,7 @@ func (p *c03) runOrder(r *core.CaseResult, c *c03case, sql string) {
 
 func (p *c03) Meta() core.Meta {
 	return core.Meta{
-		Rule: "one case per query = (grouping set in {none, g, h, (g,h), (h,g), m, (m,h)} - m holds values of mixed kinds that print alike) x (select list: keys+COUNT(*) | SUM on two columns | the same functions on two nested columns with the same final name | MIN/MAX on two columns | AVG,COUNT(*),COUNT(col) | keys+* | aggregates only | same call twice | the same functions on two columns whose names differ only in case) x (5 WHEREs incl. always-false) x (4 HAVINGs) (a subset also with LIMIT 0/1/2 on the result), each run on every table of <= 3 (thorough 4) rows over 6 archetypes and one table of 37 rows with NULL group keys and NULL aggregate inputs, compared as a sequence with the reference group-by; plus map-order cases: the grouped queries on a table subset under every Go-map iteration order within deviation bound 1 (thorough 2). non-trivial = reference has >= 2 groups (or a whole-table aggregate over >= 2 rows); for map-order cases: more than one iteration order was executed",
+		Rule: "one case per query = (grouping set in {none, g, h, (g,h), (h,g), m, (m,h), n, (n,h)} - n has more than 8 distinct values in the two larger tables, - m holds values of mixed kinds that print alike) x (select list: keys+COUNT(*) | SUM on two columns | the same functions on two nested columns with the same final name | MIN/MAX on two columns | AVG,COUNT(*),COUNT(col) | keys+* | aggregates only | same call twice | the same functions on two columns whose names differ only in case) x (5 WHEREs incl. always-false) x (4 HAVINGs) (a subset also with LIMIT 0/1/2 on the result), each run on every table of <= 3 (thorough 4) rows over 6 archetypes and one table of 37 rows with NULL group keys and NULL aggregate inputs, compared as a sequence with the reference group-by; plus map-order cases: the grouped queries on a table subset under every Go-map iteration order within deviation bound 1 (thorough 2). non-trivial = reference has >= 2 groups (or a whole-table aggregate over >= 2 rows); for map-order cases: more than one iteration order was executed",
 		Assumptions: []string{
 			"reference: SUM/MIN/MAX ignore NULL members and are NULL without non-NULL members; AVG and COUNT(col) only on NULL-free columns (abstains otherwise); HAVING only over NULL-free aggregate values",
 			"aggregate select items are always aliased (the property fixes no column name for COUNT(*))",
